@@ -266,6 +266,7 @@ func RunC20(c *Ctx) {
 		{"nested-big-array", []byte(`[{"x":` + zerosArr(60000) + `}]`)},
 		{"array-holding-one-big-object", []byte("[" + keysObj(20000, "") + "]")},
 		{"object-whose-last-member-is-big", []byte(`{"a":1,"z":` + keysObj(20000, "") + "}")},
+		{"object-with-one-wide-member", []byte(`{"data":` + keysObj(20000, "") + "}")},
 		{"big-object-of-objects", []byte("[" + strings.Repeat(keysObj(40, "k")+",", 800) + "{}]")},
 		{"deep", []byte(strings.Repeat(`[{"a":`, 4500) + "0" + strings.Repeat("}]", 4500))},
 		{"big-escaped-strings", []byte("[" + strings.Repeat(`"`+strings.Repeat(`\n`, 500)+`",`, 100) + `""]`)},
@@ -282,6 +283,9 @@ func RunC20(c *Ctx) {
 		{"null", []byte(`null`)},
 		{"wrong-kind", []byte(`"just a string"`)},
 		{"small-escaped", []byte(`{"\n":"\t","k":["\""]}`)},
+		{"flat-object", []byte(`{"a":1,"b":"x","c":null}`)},
+		{"empty-object", []byte(`{}`)},
+		{"empty-array", []byte(`[]`)},
 	}
 	rot := 0
 	readers := []struct {
@@ -396,4 +400,64 @@ func RunC20(c *Ctx) {
 		c.Rec.Sample(map[string]interface{}{"thresholds": map[string]interface{}{"growth_limit_ratio_4n_vs_n": growthLimit, "growth_judged_when_alloc_at_4n_at_least": growthMinBytes, "abs_per_byte": absPerByte, "abs_per_call": absPerCall, "history_per_byte": histPerByte, "history_per_call": histPerCall}})
 	}
 	_ = refmodel.MaxDepth
+}
+
+// Hint-propagation product: G[ big, P[ child x n ] ] for grandparent G and parent P in {array,
+// object}, big in {wide object, wide array} as the elder sibling of P, child in {{}, [], {"a":1}}.
+// Size hints travel parent -> child -> grandchild; a hint handed down one generation too far, or
+// taken from the wrong field, only shows for one of these shapes (seeded changes C20r3-m1/m2).
+func init() {
+	kinds := []string{"array", "object"}
+	bigs := map[string]func(n int) string{"wide-object": func(n int) string { return keysObj(n, "") }, "wide-array": zerosArr}
+	children := []string{"{}", "[]", `{"a":1}`}
+	for _, g := range kinds {
+		for _, pk := range kinds {
+			for bn, bf := range bigs {
+				for _, ch := range children {
+					g, pk, bf, ch := g, pk, bf, ch
+					name := fmt.Sprintf("%s[ %s, %s[ %s x n ] ]", g, bn, pk, ch)
+					docFamilies = append(docFamilies, docFamily{name, func(n int) []byte {
+						var sb strings.Builder
+						// parent with n children
+						var par strings.Builder
+						if pk == "array" {
+							par.WriteString("[")
+							for i := 0; i < n; i++ {
+								if i > 0 {
+									par.WriteByte(',')
+								}
+								par.WriteString(ch)
+							}
+							par.WriteString("]")
+						} else {
+							par.WriteString("{")
+							for i := 0; i < n; i++ {
+								if i > 0 {
+									par.WriteByte(',')
+								}
+								par.WriteString(`"m` + strconv.Itoa(i) + `":` + ch)
+							}
+							par.WriteString("}")
+						}
+						if g == "array" {
+							sb.WriteString("[" + bf(n) + "," + par.String() + "]")
+						} else {
+							sb.WriteString(`{"big":` + bf(n) + `,"rest":` + par.String() + "}")
+						}
+						return []byte(sb.String())
+					}, wide})
+				}
+			}
+		}
+	}
+	docFamilies = append(docFamilies,
+		docFamily{"array[ object{x: wide-object}, {} x n ]", func(n int) []byte {
+			return []byte(`[{"x":` + keysObj(n, "") + "}" + strings.Repeat(",{}", n) + "]")
+		}, wide},
+		docFamily{"array[ object{x: wide-object}, flat objects x n ]", func(n int) []byte {
+			return []byte(`[{"x":` + keysObj(n, "") + "}" + strings.Repeat(`,{"a":1,"b":2}`, n) + "]")
+		}, wide},
+		docFamily{"array[ array[wide-array], [] x n ]", func(n int) []byte {
+			return []byte("[[" + zerosArr(n) + "]" + strings.Repeat(",[]", n) + "]")
+		}, wide})
 }
